@@ -168,6 +168,35 @@ def run(chk, replay=None):
             if nested:
                 chk.add_sample({"kind": "recorded-execution", "backend": backend, "scenario": mine[nested[0]], "events": execs[nested[0]][:14]})
     chk.cov["events_validated"] = total_events
+    # 2b. stress: many rounds of a small loop on an oversubscribed Internal backend (16 tasking threads on 4 CPUs), so that
+    # scheduler threads are preempted at arbitrary instructions; only the first rounds and rounds whose read-back is not
+    # "every cell exactly once" are recorded (and then validated by TLC); a process that dies is an Abort line
+    if not os.environ.get("VERIF_C01_PLANS") or "stress" in os.environ.get("VERIF_C01_PLANS", ""):
+        exe = build.build("drv_par_for", backend="Internal")
+        base = {"api": "for", "B": 1, "type": "i32", "nest": {"api": "none", "n": 0, "B": 0}, "cost": "none", "prefill": 0, "cpus": 4}
+        R = 15000 if quick else 100000
+        stress = [dict(base, n=240, rounds=R), dict(base, n=56, rounds=R // 3)]
+        if not quick:
+            stress += [dict(base, n=1000, rounds=R // 5), dict(base, api="blocks", B=3, n=240, rounds=R // 3)]
+        t0 = time.time()
+        res = run_driver(exe, stress, 16, "c01-stress", timeout=1500 if not quick else 400)
+        execs = [res[i]["events"] for i in range(len(stress))]
+        rounds_run = sum(res[i].get("rounds_run", 0) for i in range(len(stress)))
+        acc, rej, stats = trace.validate(os.path.join(SPEC, "ParallelForTrace.tla"), os.path.join(SPEC, "ParallelForTrace.cfg"),
+                                         execs, "c01-stress", reset_key="ev", max_rejections=4, timeout=600)
+        chk.cov["traces_validated_against_impl"] += acc + len(rej)
+        chk.cov["evaluations"] += len(stress)
+        chk.cov["stress_rounds_run"] = rounds_run
+        chk.log("Internal T=16 on 4 CPUs, stress: %d rounds run in %.1fs, recorded rounds: %d accepted / %d rejected"
+                % (rounds_run, time.time() - t0, acc, len(rej)))
+        for rj in rej:
+            sc_ = stress[rj["exec"]]
+            evs = execs[rj["exec"]]
+            sig = sig_for("Internal", sc_, evs, rj["line"]).replace("(n>0", "(n>0,stress")
+            chk.violation(sig, "Internal backend, 16 threads on 4 CPUs, scenario %s: event %d %s is not allowed by the contract"
+                          % (json.dumps(sc_, sort_keys=True), rj["line"], json.dumps(evs[rj["line"]])[:400]),
+                          {"kind": "par_for", "backend": "Internal", "threads": 16, "scenario": sc_,
+                           "events_tail": evs[max(0, rj["line"] - 20):rj["line"] + 1], "rejected_at": rj["line"]})
     # 3. the lock-free pipe of the Internal backend, bound to the real template
     c01_mech.run_pipe_conformance(chk, quick)
     chk.cov["rule"] = ("one execution per (scenario, backend, thread count); scenarios are all elements of the set Scenarios of ParallelForGen.tla "
@@ -181,7 +210,7 @@ def do_replay(chk, path):
         return c01_mech.replay_pipe(chk, rep)
     backend, threads, s = rep["backend"], rep["threads"], rep["scenario"]
     exe = build.build("drv_par_for", backend=backend)
-    n = 1 if (s["n"] <= 0 or s.get("prefill")) else 50
+    n = 1 if (s["n"] <= 0 or s.get("prefill") or s.get("rounds")) else 50
     res = run_driver(exe, [s] * n, threads, "c01-replay")
     execs = [res[i]["events"] for i in range(n)]
     acc, rej, stats = trace.validate(os.path.join(SPEC, "ParallelForTrace.tla"), os.path.join(SPEC, "ParallelForTrace.cfg"),
